@@ -56,6 +56,10 @@ type scopeinfo struct {
 	id          int
 	depth       int
 	variablecnt int
+	// the functions and variables below these indices are not visible
+	// while compiling an imported module, except for the first varbase
+	// variables, which are given to the program (ref: compileModule)
+	funcfloor, varfloor, varbase int
 }
 
 type varinfo struct {
@@ -89,6 +93,7 @@ func Compile(q *Query, options ...CompilerOption) (*Code, error) {
 		c.appendCodeInfo(name)
 		c.append(&code{op: opstore, v: c.pushVariable(name)})
 	}
+	scope.varbase = len(scope.variables)
 	if c.moduleLoader != nil {
 		if moduleLoader, ok := c.moduleLoader.(interface {
 			LoadInitModules() ([]*Query, error)
@@ -201,11 +206,15 @@ func (c *compiler) compileModule(q *Query, alias string) error {
 		scope.variables = scope.variables[:l]
 	}(len(scope.variables))
 	if alias != "" {
-		defer func(l int) {
+		// the module does not see the functions and the imported data of
+		// the importer, but the variables given to the program
+		defer func(l, m, n int) {
+			scope.funcfloor, scope.varfloor = m, n
 			for _, f := range scope.funcs[l:] {
 				f.name = alias + "::" + f.name
 			}
-		}(len(scope.funcs))
+		}(len(scope.funcs), scope.funcfloor, scope.varfloor)
+		scope.funcfloor, scope.varfloor = len(scope.funcs), len(scope.variables)
 	}
 	for _, i := range q.Imports {
 		if err := c.compileImport(i); err != nil {
@@ -246,7 +255,7 @@ func (c *compiler) lookupVariable(name string) ([2]int, error) {
 	for i := len(c.scopes) - 1; i >= 0; i-- {
 		s := c.scopes[i]
 		for j := len(s.variables) - 1; j >= 0; j-- {
-			if w := s.variables[j]; w.name == name {
+			if w := s.variables[j]; w.name == name && s.visible(j) {
 				return w.index, nil
 			}
 		}
@@ -258,19 +267,25 @@ func (c *compiler) lookupFuncOrVariable(name string) (*funcinfo, *varinfo) {
 	for i, isFunc := len(c.scopes)-1, name[0] != '$'; i >= 0; i-- {
 		s := c.scopes[i]
 		if isFunc {
-			for j := len(s.funcs) - 1; j >= 0; j-- {
+			for j := len(s.funcs) - 1; j >= s.funcfloor; j-- {
 				if f := s.funcs[j]; f.name == name && f.argcnt == 0 {
 					return f, nil
 				}
 			}
 		}
 		for j := len(s.variables) - 1; j >= 0; j-- {
-			if v := s.variables[j]; v.name == name {
+			if v := s.variables[j]; v.name == name && s.visible(j) {
 				return nil, v
 			}
 		}
 	}
 	return nil, nil
+}
+
+// visible reports whether the j-th variable of the scope is visible: an
+// imported module sees the variables given to the program only.
+func (s *scopeinfo) visible(j int) bool {
+	return j >= s.varfloor || j < s.varbase
 }
 
 func (c *compiler) lookupBuiltin(name string, argcnt int) *funcinfo {
@@ -945,7 +960,7 @@ func (c *compiler) compileFunc(e *Func) error {
 	} else {
 		for i := len(c.scopes) - 1; i >= 0; i-- {
 			s := c.scopes[i]
-			for j := len(s.funcs) - 1; j >= 0; j-- {
+			for j := len(s.funcs) - 1; j >= s.funcfloor; j-- {
 				if f := s.funcs[j]; f.name == e.Name && f.argcnt == len(e.Args) {
 					return c.compileCallPc(f, e.Args)
 				}
